@@ -10,7 +10,7 @@ package wallet
 //   versions V3R1 V3R2 V4R1 V4R2 V5Beta V5R1 HighLoadV2R2
 //   x message counts {0, 1, 2, max, max+1}  (body builder: max = 4 / 4 / 255 / 255 / 254 - the contract limits, the 255
 //     of v5 being the TVM action list limit; send path: max = the library's own maxMessageNumber())
-//   x (seqno, valid-until) pairs over {0, 1, 2^31-1, 2^31, 2^32-2, 2^32-1} (seqno = v[j], valid-until = v[5-j])
+//   x (seqno, valid-until) pairs over {0, 1, 2^31-1, 2^31, 2^32-2, 2^32-1} (seqno = v[j], valid-until = v[(5-j+m) mod 6] for the m-th mode list)
 //   x base send modes {0, 1, 3, 128, 255} (message i of a case gets mode[(base+i) mod 5], so that order is observable)
 //   x 4 key pairs, workchains {0,-1}, sub-wallet ids {default,0,1,0xffffffff}, network ids {default,-239,-3}
 //     rotated over the cases (thorough: every case with 2 keys, every bit flipped instead of every 8th; bodies with
@@ -539,7 +539,8 @@ func TestVerifStandin_C14_WalletMessages(t *testing.T) {
 					for _, ki := range keyIdxs {
 						key, wrong := keys[ki], keys[ki+1]
 						opts := c14Opts{wc: -(caseIdx % 2), sub: subs[(caseIdx/2)%4], net: nets[(caseIdx/8)%3]}
-						seqno, validUntil := vals[si], vals[5-si]
+						// every seqno meets several valid-until values (a fixed pairing would pair seqno 0 with 2^32-1 only)
+						seqno, validUntil := vals[si], vals[(5-si+mi)%len(vals)]
 						wantID := c14WalletIDBits(ver, opts.wc, opts.sub, opts.net, 0)
 						var w Wallet
 						var werr error
